@@ -62,3 +62,221 @@ Proof.
     pose proof (clip_range q0 (/ 2 * vx size)). pose proof (clip_range q1 (/ 2 * vy size)).
     pose proof (clip_range q2 (/ 2 * vz size)). repeat split; lra.
 Qed.
+
+(** ** cylinder: closed form of the model's point_to_cylinder distance in local coordinates *)
+Lemma axis_perp_dot (T : Pose R) (k : V3R) :
+  is_rotation (rot T) ->
+  dot (vsub (vsub (transform_point T k) (trans T)) (vscale (vz k) (col (rot T) 2))) (col (rot T) 2) = 0.
+Proof.
+  intros H. apply is_rotation_cols in H. destruct H as (A & B & C & D & E & G).
+  vsimp. nsatz.
+Qed.
+
+Definition cyl_m (r rho2 : R) : R :=
+  fmin 1 (if negb (Reqb (R_sqrt.sqrt rho2) 0) then r / R_sqrt.sqrt rho2 else r).
+
+Lemma point_to_cylinder_local (T : Pose R) (k : V3R) (r l : R) :
+  is_rotation (rot T) ->
+  let rho2 := vx k * vx k + vy k * vy k in
+  let m := cyl_m r rho2 in
+  let c := clip (vz k) (- (/ 2 * l)) (/ 2 * l) in
+  fst (DistPrim.point_to_cylinder (transform_point T k) T r l)
+  = R_sqrt.sqrt ((1 - m) * (1 - m) * rho2 + (vz k - c) * (vz k - c)).
+Proof.
+  intros HR rho2 m c.
+  unfold DistPrim.point_to_cylinder. cbv zeta. cbn [fst].
+  rewrite !axis_dot by auto.
+  set (z := col (rot T) 2). set (p := transform_point T k).
+  set (u := vsub (vsub p (trans T)) (vscale (vz k) z)).
+  assert (U1 : dot u u = rho2).
+  { subst u p z. rewrite <- sumsq_dot, axis_perp by auto. subst rho2. ring. }
+  assert (U2 : dot u z = 0) by (subst u p z; apply axis_perp_dot; auto).
+  assert (U3 : dot z z = 1) by (subst z; apply rotation_col_unit; auto).
+  assert (P : p = vadd (vadd (trans T) u) (vscale (vz k) z)).
+  { subst u. generalize (trans T) z p. intros a b q. vsimp. f_equal; ring. }
+  rewrite U1. rewrite dhalf_R. rops. unfold DistPrim.neqb. rops.
+  replace (- / 2 * l) with (- (/ 2 * l)) by ring.
+  fold (cyl_m r rho2). fold m. fold c.
+  unfold norm. rops. f_equal.
+  replace (vsub p (vadd (vadd (trans T) (vscale m u)) (vscale c z)))
+    with (vadd (vscale (1 - m) u) (vscale (vz k - c) z)).
+  - rewrite !dot_add_l, !dot_add_r, !dot_scale_l, !dot_scale_r, (dot_comm z u), U1, U2, U3. ring.
+  - rewrite P. generalize (trans T) z u. intros a b q. vsimp. f_equal; ring.
+Qed.
+
+Lemma sqrt_sum_zero (a b : R) : 0 <= a -> 0 <= b -> (R_sqrt.sqrt (a + b) = 0 <-> a = 0 /\ b = 0).
+Proof.
+  intros Ha Hb. rewrite sqrt_zero_iff by lra. lra.
+Qed.
+
+Theorem point_in_cylinder_iff_distance_zero (p : V3R) (T : Pose R) (r l : R) :
+  is_rotation (rot T) -> 0 <= r -> 0 <= l ->
+  (point_in_cylinder p T r l = true <-> fst (DistPrim.point_to_cylinder p T r l) = 0).
+Proof.
+  intros HR Hr Hl. rewrite (point_in_cylinder_iff p T r l HR).
+  unfold cylinder_set. rewrite image_rotation_iff by auto.
+  pose proof (local_point T p HR) as Hp.
+  set (k := inverse_transform_point T p) in *. clearbody k. subst p.
+  rewrite point_to_cylinder_local by auto. cbv zeta.
+  destruct k as [kx ky kz]. cbn [vx vy vz]. unfold cylinder_K. cbn [vx vy vz].
+  set (rho2 := kx * kx + ky * ky). assert (Hrho : 0 <= rho2) by (subst rho2; nra).
+  rewrite sqrt_sum_zero; [|apply Rmult_le_pos; [apply sqr_nonneg|exact Hrho]|apply sqr_nonneg].
+  pose proof (sqrt_pos rho2) as Hs0. pose proof (sqrt_sqrt rho2 Hrho) as Hss.
+  unfold cyl_m. rops. set (s := R_sqrt.sqrt rho2) in *. clearbody s.
+  rewrite ContainProofs.Rabs_le_iff.
+  pose proof (clip_range kz (/ 2 * l) ltac:(lra)) as Hc.
+  split.
+  - intros [A B]. rewrite clip_inside by lra. split; [|ring].
+    case_eqb s 0 Hs; cbn [negb].
+    + assert (rho2 = 0) by nra. nra.
+    + assert (0 < s) by lra. assert (s <= r) by nra.
+      assert (1 <= r / s). { apply Rmult_le_reg_r with s; auto. unfold Rdiv. rewrite Rmult_assoc, Rinv_l by lra. lra. }
+      unfold fmin. rops. case_ltb (r / s) 1 Hlt; [lra|]. ring.
+  - intros [A B]. assert (Ekz : kz = clip kz (- (/ 2 * l)) (/ 2 * l)) by nra.
+    split; [|lra].
+    destruct (Req_dec rho2 0) as [Z|NZ]; [nra|].
+    assert (0 < s) by nra.
+    revert A. case_eqb s 0 Hs; [lra|]. cbn [negb]. unfold fmin. rops.
+    case_ltb (r / s) 1 Hlt; intros A.
+    + exfalso. assert ((1 - r / s) * (1 - r / s) = 0) by nra. nra.
+    + assert (1 <= r / s) by lra.
+      assert (s <= r). { apply Rmult_le_reg_r with (/ s); [apply Rinv_0_lt_compat; lra|]. rewrite Rinv_r by lra. exact H0. }
+      nra.
+Qed.
+
+(** ** disk *)
+Lemma cyl_m_inside (r rho2 : R) : 0 <= r -> 0 <= rho2 -> rho2 <= r * r -> (1 - cyl_m r rho2) * (1 - cyl_m r rho2) * rho2 = 0.
+Proof.
+  intros Hr H0 H. pose proof (sqrt_pos rho2) as Hs0. pose proof (sqrt_sqrt rho2 H0) as Hss.
+  unfold cyl_m. rops. set (s := R_sqrt.sqrt rho2) in *. clearbody s.
+  case_eqb s 0 Hs; cbn [negb].
+  - assert (Z : rho2 = 0) by nra. rewrite Z. ring.
+  - assert (0 < s) by lra. assert (s <= r) by nra.
+    assert (1 <= r / s). { apply Rmult_le_reg_r with s; auto. unfold Rdiv. rewrite Rmult_assoc, Rinv_l by lra. lra. }
+    unfold fmin. rops. case_ltb (r / s) 1 Hlt; [lra|]. ring.
+Qed.
+Lemma cyl_m_zero_inside (r rho2 : R) : 0 <= r -> 0 <= rho2 ->
+  (1 - cyl_m r rho2) * (1 - cyl_m r rho2) * rho2 = 0 -> rho2 <= r * r.
+Proof.
+  intros Hr H0. pose proof (sqrt_pos rho2) as Hs0. pose proof (sqrt_sqrt rho2 H0) as Hss.
+  unfold cyl_m. rops. set (s := R_sqrt.sqrt rho2) in *. clearbody s.
+  destruct (Req_dec rho2 0) as [Z|NZ]; [nra|].
+  assert (0 < s) by nra.
+  case_eqb s 0 Hs; [lra|]. cbn [negb]. unfold fmin. rops.
+  case_ltb (r / s) 1 Hlt; intros A.
+  - exfalso. assert ((1 - r / s) * (1 - r / s) = 0) by nra. nra.
+  - assert (1 <= r / s) by lra.
+    assert (s <= r). { apply Rmult_le_reg_r with (/ s); [apply Rinv_0_lt_compat; lra|]. rewrite Rinv_r by lra. exact H1. }
+    nra.
+Qed.
+
+Lemma point_to_disk_formula (p c : V3R) (r : R) (n : V3R) : dot n n = 1 ->
+  let d := dot (vsub p c) n in
+  let sq := dot (vsub (vsub p c) (vscale d n)) (vsub (vsub p c) (vscale d n)) in
+  fst (DistPrim.point_to_disk p c r n) = R_sqrt.sqrt ((1 - cyl_m r sq) * (1 - cyl_m r sq) * sq + d * d).
+Proof.
+  intros Hn d sq. unfold DistPrim.point_to_disk. cbv zeta. cbn [fst].
+  fold d. set (u := vsub (vsub p c) (vscale d n)). fold sq.
+  unfold DistPrim.neqb. rops. fold (cyl_m r sq). set (m := cyl_m r sq).
+  assert (U2 : dot u n = 0).
+  { subst u. rewrite dot_sub_l, dot_scale_l, Hn. subst d. ring. }
+  unfold norm. rops. f_equal.
+  replace (vsub p (vadd c (vscale m u))) with (vadd (vscale (1 - m) u) (vscale d n)).
+  - rewrite !dot_add_l, !dot_add_r, !dot_scale_l, !dot_scale_r, (dot_comm n u), U2, Hn. replace (dot u u) with sq by reflexivity. ring.
+  - subst u. generalize d. intros d'. generalize m. intros m'. vsimp. f_equal; ring.
+Qed.
+
+Theorem point_in_disk_distance_small (p c : V3R) (r : R) (n : V3R) :
+  dot n n = 1 -> 0 <= r ->
+  point_in_disk p c r n = true -> fst (DistPrim.point_to_disk p c r n) <= @EPSILON10 R ROps.
+Proof.
+  intros Hn Hr H. rewrite point_to_disk_formula by auto. cbv zeta.
+  unfold point_in_disk in H. cbv zeta in H. rops.
+  rewrite andb_true_iff, !negb_true_iff, !Rltb_false, sumsq_dot in H. destruct H as [A B].
+  rewrite cyl_m_inside by (auto; apply dot_self_nonneg).
+  rewrite Rplus_0_l, sqrt_sq_abs. exact A.
+Qed.
+
+Theorem point_in_disk_exact_distance_zero (p c : V3R) (r : R) (n : V3R) :
+  dot n n = 1 -> 0 <= r -> disk_set c r n p -> fst (DistPrim.point_to_disk p c r n) = 0.
+Proof.
+  intros Hn Hr [A B]. rewrite point_to_disk_formula by auto. cbv zeta.
+  rewrite A. replace (vsub (vsub p c) (vscale 0 n)) with (vsub p c) by (vsimp; f_equal; ring).
+  rewrite cyl_m_inside by (auto; apply dot_self_nonneg).
+  replace (0 + 0 * 0) with 0 by ring. apply sqrt_0.
+Qed.
+
+Theorem distance_zero_point_in_disk (p c : V3R) (r : R) (n : V3R) :
+  dot n n = 1 -> 0 <= r -> fst (DistPrim.point_to_disk p c r n) = 0 -> disk_set c r n p /\ point_in_disk p c r n = true.
+Proof.
+  intros Hn Hr H. rewrite point_to_disk_formula in H by auto. cbv zeta in H.
+  set (d := dot (vsub p c) n) in *.
+  set (sq := dot (vsub (vsub p c) (vscale d n)) (vsub (vsub p c) (vscale d n))) in *.
+  assert (Hsq : 0 <= sq) by (subst sq; apply dot_self_nonneg).
+  apply sqrt_sum_zero in H; [|apply Rmult_le_pos; [apply sqr_nonneg|auto]|apply sqr_nonneg].
+  destruct H as [A B]. assert (Hd : d = 0) by nra.
+  apply cyl_m_zero_inside in A; auto.
+  assert (Hin : disk_set c r n p).
+  { split; [exact Hd|]. subst sq. rewrite Hd in A.
+    replace (vsub (vsub p c) (vscale 0 n)) with (vsub p c) in A by (vsimp; f_equal; ring). exact A. }
+  split; auto. apply point_in_disk_of_disk; auto.
+Qed.
+
+(** ** against the support mappings: no contained point projects beyond the support value *)
+Theorem contained_sphere_below_support (p c d : V3R) (r : R) : 0 <= r ->
+  point_in_sphere p c r = true -> dot p d <= dot (support_sphere d c r) d.
+Proof.
+  intros Hr H. apply point_in_sphere_iff in H.
+  apply (contained_below_support (sphere_set c r)); auto. apply support_sphere_correct; auto.
+Qed.
+Theorem contained_capsule_below_support (p d : V3R) (T : Pose R) (r h : R) :
+  is_rotation (rot T) -> 0 <= r -> 0 < h ->
+  point_in_capsule p T r h = true -> dot p d <= dot (support_capsule d T r h) d.
+Proof.
+  intros HR Hr Hh H. apply point_in_capsule_iff in H; auto.
+  apply (contained_below_support (capsule_set T r h)); auto. apply support_capsule_correct; lra.
+Qed.
+Theorem contained_ellipsoid_below_support (p d : V3R) (T : Pose R) (radii : V3R) :
+  is_rotation (rot T) -> 0 < vx radii -> 0 < vy radii -> 0 < vz radii ->
+  point_in_ellipsoid p T radii = true -> dot p d <= dot (support_ellipsoid d T radii) d.
+Proof.
+  intros HR A B C H. apply point_in_ellipsoid_iff in H; auto.
+  apply (contained_below_support (ellipsoid_set T radii)); auto. apply support_ellipsoid_correct; auto.
+Qed.
+Theorem contained_cone_below_support (p d : V3R) (T : Pose R) (r h : R) :
+  is_rotation (rot T) -> 0 <= r -> 0 < h ->
+  point_in_cone p T r h = true -> dot p d <= dot (support_cone d T r h) d.
+Proof.
+  intros HR Hr Hh H. apply point_in_cone_iff in H; auto.
+  apply (contained_below_support (cone_set T r h)); auto. apply support_cone_correct; auto.
+Qed.
+Theorem contained_cylinder_below_support (p d : V3R) (T : Pose R) (r l : R) :
+  is_rotation (rot T) -> 0 <= r -> 0 <= l ->
+  point_in_cylinder p T r l = true -> dot p d <= dot (support_cylinder d T r l) d.
+Proof.
+  intros HR Hr Hl H. apply point_in_cylinder_iff in H; auto.
+  apply (contained_below_support (cylinder_set T r l)); auto. apply support_cylinder_correct; auto.
+Qed.
+Theorem contained_box_below_support (p d : V3R) (T : Pose R) (size : V3R) :
+  is_rotation (rot T) -> 0 <= vx size -> 0 <= vy size -> 0 <= vz size ->
+  point_in_box p T size = true ->
+  exists s, support_box_collider d T size = Some s /\ dot p d <= dot s d.
+Proof.
+  intros HR A B C H. apply point_in_box_iff in H; auto.
+  destruct (support_box_collider_correct d T size A B C) as (s & Es & Hs).
+  exists s. split; auto. apply (contained_below_support (box_set T size)); auto.
+Qed.
+(** the disk predicate accepts a slab of half width 10*eps around the disk, so the bound
+    carries that slack along the normal *)
+Theorem contained_disk_below_support (p c d : V3R) (r : R) (n : V3R) :
+  dot n n = 1 -> 0 <= r ->
+  point_in_disk p c r n = true ->
+  dot p d <= dot (support_disk d c r n) d + @EPSILON10 R ROps * Rabs (dot n d).
+Proof.
+  intros Hn Hr H. apply point_in_disk_iff in H; auto.
+  destruct H as (q & t & Hq & Ht & ->).
+  pose proof (contained_below_support (disk_set c r n) q d _ Hq (support_disk_correct d c r n Hr Hn)) as Hb.
+  rewrite dot_add_l, dot_scale_l.
+  pose proof (mul_le_abs t (dot n d)) as Hm. pose proof (Rabs_pos (dot n d)).
+  assert (Rabs t * Rabs (dot n d) <= EPSILON10 * Rabs (dot n d)) by nra. lra.
+Qed.
